@@ -1,10 +1,14 @@
-import YaclibModel.Proofs.CoSharedMutex
+import YaclibModel.Proofs.CoSharedMutexS_spinOk_1
+import YaclibModel.Proofs.CoSharedMutexS_spinOk_2
+import YaclibModel.Proofs.CoSharedMutexS_spinOk_3
 namespace Yaclib.CoSharedMutex
 
-set_option maxHeartbeats 4000000 in
 theorem inv_spinOk {cfg : Cfg} {s : State} (hi : Inv cfg s) (c : Cid) (k : SpinK) (h : s.pc c = .spinning k false) (hf : s.spin = .free) :
     Inv cfg ((doSpinOk s c k)) := by
-  cases hi
-  cases k <;> sm_auto [List.count_le_length]
+  have hkd : k = .rd ∨ k = .wr ∨ k = .un := by cases k <;> simp
+  rcases hkd with hk | hk | hk
+  · exact inv_spinOk_1 hi c k h hf hk
+  · exact inv_spinOk_2 hi c k h hf hk
+  · exact inv_spinOk_3 hi c k h hf hk
 
 end Yaclib.CoSharedMutex
